@@ -1,13 +1,23 @@
 """C02 — no lost, early or duplicate wake-up of a future's waiters (future.h, awaiter.h)."""
 from props import cellcommon
-RULE = ("controlled schedules (real threads, one runnable at a time, yield at every COCLS_VERIF_POINT) of 0-2 "
-        "resolvers (value / exception / drop / move-then-destroy) plus the final destructor of the shared promise against 1-3 waiters of every kind (coroutine, blocking thread, callback awaiter, has_value), "
-        "for value types int, void, unique_ptr<int>, long&, instance-counted; random, bursty and last-first schedules; thorough adds every "
-        "schedule prefix of length 7; non-trivial = at least 3 thread switches in the executed trace; distinct = distinct (threads, schedule)")
-SCOPE = "promise::claim/set_value/set_exception/drop/~promise/move ctor, future::set/resolve/value, awaiter::resume_chain_set_ready/resume_chain_lk/subscribe_check_ready, co_awaiter sync/await_*"
+RULE = ("part ctl_cell: controlled schedules (real threads, one runnable at a time, yield at every COCLS_VERIF_POINT) of 0-2 resolvers "
+        "(value / exception / drop / move-then-destroy / completion of an async coroutine by co_return or by exception) plus the final "
+        "destructor of the shared promise against 1-3 waiters of every kind (coroutine co_await f, thread in sync()+value(), callback awaiter "
+        "whose context deletes itself, thread in has_value(), coroutine co_await f.has_value()), value types int, void, unique_ptr<int>, long&, "
+        "instance-counted; random, bursty and last-first schedules; thorough adds EVERY schedule of 2 waiters (all 15 kind pairs) x 1 resolver "
+        "(7 kinds incl. none = destructor resolves), enumerated by the extracted model (cell_enum). part stress_cell: the same cell under real "
+        "uncontrolled threads (3000 / 30000 trials per configuration, really blocking waiters), oracle = counters lost/dup/wrong/early all zero. "
+        "non-trivial = at least 3 thread switches in the executed trace; distinct = distinct (threads, schedule)")
+SCOPE = ("promise::claim/set_value/set_exception/drop/~promise/move ctor, future::set/resolve/value/has_value, awaiter::resume_chain_set_ready/"
+         "resume_chain_lk/subscribe_check_ready, co_awaiter await_ready/await_suspend/await_resume/sync, sync_awaiter, awaitable_bool, "
+         "async::start(promise&)/async_promise::final_awaiter")
 ASSUMPTIONS = ["the destructor of the shared promise object runs after every call on that object has returned (C++ object lifetime)",
-               "interleaving at the granularity of the hook points (each atomic operation on promise::_owner / future::_awaiter is its own step); sequentially consistent"]
+               "interleaving at the granularity of the hook points (each atomic operation on promise::_owner / future::_awaiter is its own step); sequentially consistent",
+               "sync_awaiter::wakeup (flag.store + flag.notify_all) and std::atomic::wait are one level-triggered step in the model; their real interplay is exercised only by the stress part",
+               "a callback awaiter's context is freed inside its callback, a coroutine's awaiter dies when the coroutine resumes (harness scenario recorded as EFree events)"]
 def gen(seed, tier): return cellcommon.gen(seed, tier, "waiters")
+def gen_stress(seed, tier): return cellcommon.gen_stress(seed, tier)
 nontrivial = cellcommon.nontrivial
 signature = cellcommon.signature
-PARTS = [{"name": "ctl_cell", "harness": "ctl_cell.cpp", "gen": gen, "no_shrink": False, "timeout_case": 10}]
+PARTS = [{"name": "ctl_cell", "harness": "ctl_cell.cpp", "gen": gen, "no_shrink": False, "timeout_case": 10},
+         {"name": "stress_cell", "harness": "stress_cell.cpp", "gen": gen_stress, "no_shrink": True, "timeout_case": 30}]
